@@ -1312,22 +1312,27 @@ theorem run_life (cfg : Cfg) (hs : Sound cfg) (hR : Removes cfg) (ops : List Op)
 sender's bank balance, no ERC-20 balance changes, whatever else is in flight -/
 theorem settle_refund_cosmos (cfg : Cfg) (hs : Sound cfg) (hE : cfg.ackErrRefunds = true) (hT : cfg.timeoutRefunds = true)
     (hG : cfg.refundGuarded = true) (s : State) (l : Ch) (seq : Seq) (p : Pkt) (mode : Mode) (hm : mode ≠ .ackOk)
-    (hl : Life s.ctl) (hlk : lookup (l, seq) s.ctl.commits = some p) (hev : p.evm = false) :
+    (hl : Life s.ctl) (hlk : lookup (l, seq) s.ctl.commits = some p) (hev : p.evm = false ∨ p.tok = .F) :
     (stepWith cfg s (.settle l seq mode)).2.isDone →
       (stepWith cfg s (.settle l seq mode)).1.bal.erc = s.bal.erc ∧
       (p.sender ≠ escrow l → sget (stepWith cfg s (.settle l seq mode)).1.bal.bank (p.sender, bankDenom p.tok l) =
         sget s.bal.bank (p.sender, bankDenom p.tok l) + p.amt) ∧
       (∀ a d, d ≠ bankDenom p.tok l → sget (stepWith cfg s (.settle l seq mode)).1.bal.bank (a, d) = sget s.bal.bank (a, d)) ∧
       (stepWith cfg s (.settle l seq mode)).1.ctl.refundLog = ⟨l, seq, p.sender, p.tok, p.amt, false⟩ :: s.ctl.refundLog := by
-  have hret : returning p.tok = true := hl.cC _ (lookup_mem hlk) hev
+  have hret : returning p.tok = true := by
+    rcases hev with hev | hev
+    · exact hl.cC _ (lookup_mem hlk) hev
+    · rw [hev]; rfl
   -- no record under this key: records belong to EVM-started commitments, and the key has one commitment only
   have hnot : (l, seq) ∉ s.ctl.rel := by
     intro hin
-    obtain ⟨x, hx, hxk, hxe, _⟩ := hl.relC _ hin
+    obtain ⟨x, hx, hxk, hxe, hxt⟩ := hl.relC _ hin
     have := hl.cU x hx _ (lookup_mem hlk) hxk
-    rw [this] at hxe
-    simp only at hxe
-    rw [hev] at hxe; cases hxe
+    rw [this] at hxe hxt
+    simp only at hxe hxt
+    rcases hev with hev | hev
+    · rw [hev] at hxe; cases hxe
+    · exact hxt hev
   have hfound : refundFound cfg s.ctl (l, seq) p = none := by
     rw [refundFound_src cfg hs.refundSees hs.refundChan hs.refundSeq hs.deleteReports]
     simp [hnot]
@@ -1396,4 +1401,81 @@ theorem toDigits_inj {m n : Nat} (h : Nat.toDigits 10 m = Nat.toDigits 10 n) : m
   have h₂ := Nat.ofDigitChars_ten_toDigits (n := n)
   rw [h] at h₁
   exact h₁.symm.trans h₂
+
+/-! ## a transfer started from the EVM that fails gives back exactly what it took -/
+
+theorem runWith_append (cfg : Cfg) (s : State) (a b : List Op) :
+    runWith cfg s (a ++ b) = runWith cfg (runWith cfg s a) b := by
+  simp [runWith, List.foldl_append]
+
+theorem send_refund_roundtrip (cfg : Cfg) (hs : Sound cfg) (hE : cfg.ackErrRefunds = true) (hT : cfg.timeoutRefunds = true)
+    (hTo : cfg.refundToSender = true) (s : State) (h : Inv s.ctl) (l : Ch) (a : Addr) (amt : Nat) (mode : Mode)
+    (hm : mode ≠ .ackOk) (hmeta : cfg.aliasFirst = true ∨ l ∉ s.ctl.vmeta)
+    (hok : (stepWith cfg s (.send l a .A amt)).2 ≠ .fail) :
+    (stepWith cfg (stepWith cfg s (.send l a .A amt)).1 (.settle l (nextSeq s.ctl l) mode)).2.isDone ∧
+    (∀ k, sget (stepWith cfg (stepWith cfg s (.send l a .A amt)).1 (.settle l (nextSeq s.ctl l) mode)).1.bal.erc k =
+      sget s.bal.erc k) ∧
+    (a ≠ transferMod → a ≠ erc20Mod → ∀ d,
+      sget (stepWith cfg (stepWith cfg s (.send l a .A amt)).1 (.settle l (nextSeq s.ctl l) mode)).1.bal.bank (a, d) =
+        sget s.bal.bank (a, d)) ∧
+    (stepWith cfg (stepWith cfg s (.send l a .A amt)).1 (.settle l (nextSeq s.ctl l) mode)).1.ctl.rel = s.ctl.rel := by
+  have hinv1 := step_inv cfg hs s (.send l a .A amt) h
+  simp only [stepWith, doSend] at hok hinv1 ⊢
+  cases hb : sendBal s.bal l a .A amt true with
+  | none => simp [hb] at hok
+  | some b =>
+    simp only [hb] at hinv1 ⊢
+    -- what the send did
+    have hguard : amt ≤ sget s.bal.erc (a, ETok.base) ∧
+        b = { s.bal with erc := ssub s.bal.erc (a, ETok.base) amt,
+                         bank := ssub (ssub s.bal.bank (erc20Mod, Denom.base) amt) (transferMod, Denom.vA l) amt } := by
+      simp only [sendBal] at hb
+      split at hb
+      · cases hb
+      · split at hb
+        · cases hb
+        · rename_i hc
+          simp only [not_or, Nat.not_lt] at hc
+          simp only [Option.some.injEq] at hb
+          exact ⟨hc.1, hb.symm⟩
+    have hkey : sendKey cfg l (nextSeq s.ctl l) .A true = some (l, nextSeq s.ctl l) := by
+      simp [sendKey, hs.sendSetsRel, hs.sendKeyOwn]
+    let e : SentRec := ⟨l, nextSeq s.ctl l, a, .A, amt⟩
+    let s1 : State := { bal := b, ctl := sendCtl s.ctl l ⟨a, .A, amt, true, cpOf s.ctl l⟩ (sendKey cfg l (nextSeq s.ctl l) .A true) }
+    have he : e ∈ s1.ctl.evmSent := by simp [s1, e, sendCtl]
+    have hc : ∃ x ∈ s1.ctl.commits, x.1 = e.key := ⟨_, by simp only [s1, sendCtl]; exact List.mem_cons_self, rfl⟩
+    have hvm : cfg.aliasFirst = true ∨ e.ch ∉ s1.ctl.vmeta := by simpa [s1, e, sendCtl] using hmeta
+    obtain ⟨c1, c2, c3, c4, _, c6⟩ := settle_refund_credits cfg hs hE hT hTo s1 e mode hm hinv1 he rfl hc hvm
+    simp only [stepWith] at c1 c2 c3 c4 c6
+    refine ⟨c1, ?_, ?_, ?_⟩
+    · intro k
+      by_cases hk : k = (a, ETok.base)
+      · subst hk
+        have := c2
+        simp only [e, s1] at this
+        rw [this, hguard.2]
+        simp only [get_sub, ↓reduceIte]
+        omega
+      · have := c3 k hk
+        simp only [e, s1] at this
+        rw [this, hguard.2]
+        simp [get_sub, Ne.symm hk]
+    · intro hn1 hn2 d
+      have := c4 hn1 hn2 d
+      simp only [e, s1] at this
+      rw [this, hguard.2]
+      have e1 : ¬ (transferMod = a) := fun x => hn1 x.symm
+      have e2 : ¬ (erc20Mod = a) := fun x => hn2 x.symm
+      simp [get_sub, e1, e2]
+    · have c6' : (settle cfg s1 l (nextSeq s.ctl l) mode).1.ctl.rel = dropRel s1.ctl.rel (l, nextSeq s.ctl l) := c6
+      have hrel1 : s1.ctl.rel = (l, nextSeq s.ctl l) :: s.ctl.rel := by simp [s1, sendCtl, hkey]
+      show (settle cfg s1 l (nextSeq s.ctl l) mode).1.ctl.rel = s.ctl.rel
+      rw [c6', hrel1]
+      have hfresh : (l, nextSeq s.ctl l) ∉ s.ctl.rel := by
+        intro hin
+        have := h.fK _ hin
+        exact absurd this (Nat.not_succ_le_self _)
+      have : dropRel ((l, nextSeq s.ctl l) :: s.ctl.rel) (l, nextSeq s.ctl l) = dropRel s.ctl.rel (l, nextSeq s.ctl l) := by
+        simp [dropRel]
+      rw [this, dropRel_of_not_mem _ _ hfresh]
 end FxVerif.Proofs.C19
